@@ -2,16 +2,22 @@
 
 proof          lean/SoxrModel/Properties/C16.lean over the control skeleton lean/SoxrModel/Vr/Model.lean
                 (constants regenerated from vr32.c by harness/vr/gen.c): slew arithmetic, linear progression, exact
-                snap, overshoot bound, immediate change, stays at target (hypothesis: no unfinished slew; negation
-                proved = F13), stage switch rescaling / time continuity, frame count on the clock, CR refusal.
-correspondence  random ratio trajectories (max ratio 0.5…64, slews 0…4000, mid-slew changes, random blocks, flush) through
-                the real engine (harness/vr/trace.c, asserts on) and through the compiled model soxr_vr: every field of
-                rate_t and every FIFO occupancy after every call, plus the decision of soxr_set_io_ratio.
+                snap, overshoot bound, immediate change and "then stays" for every state (request_settles; the
+                "no unfinished slew" hypothesis went with the repair of F13), stage switch rescaling / time continuity,
+                the repaired shift equals the model's (F14), frame count on the clock, CR refusal, fade alignment:
+                negation proved with a witness (F35) + the part that holds (down-switch fades).
+correspondence  random ratio trajectories (max ratio 0.5…64, slews 0…4000, changes in mid-slew incl. immediate ones,
+                random blocks, flush) through the real engine (harness/vr/trace.c, asserts on) and through the compiled
+                model soxr_vr: every field of rate_t and every FIFO occupancy after every call, plus the decision of
+                soxr_set_io_ratio.  Where the model says the two cross-faded streams get out of step (ghost nmis, F35) the
+                asserts-on run is cut before that call, that call must abort on `odone == odone2`, and the NDEBUG build
+                is compared through it.
 falsifier       on the real code only: integer oracles of the property on the exported state (target reached and kept,
                 linear slew, increment rounding); sine-fit residual >= 80 dB and N/ratio within two frames at constant
                 ratios; ramp read-back (trajectory r(t), time continuity) and second-difference bound (no discontinuity)
                 over trajectories crossing every octave both ways; CR engines refuse; request-size schedules (F12);
-                ASan/UBSan build (F14); the Lean witnesses of F13 replayed.
+                ASan/UBSan build with C99 shift rules (F14 stays repaired); the Lean witnesses of F13 (must end at the
+                requested ratio) and of F35 replayed.
 """
 import json, math, os, tempfile, glob, hashlib
 from concurrent.futures import ThreadPoolExecutor
@@ -21,6 +27,7 @@ from checks import vrlib as V
 
 LEVEL = "proof"
 PID = "C16"
+FADE = V.fade_len()     # fade_len right after a stage switch (AL(fade_coefs) - 1, from Generated.lean)
 RESID_DB = -80.0        # the property: residual at least 80 dB below the signal
 FRAMES_TOL = 2          # the property: N/ratio within two frames
 F32 = 2.0 ** -24        # resolution of the engine's sample format (float32), for the ramp oracle
@@ -67,15 +74,24 @@ def integer_oracles(mx, ops, groups):
                 req = dict(r=r, L=L, out=0, f13=False, dropped=s.ss == 0, sw=0, tol=(L // 2 + 1) if s.ss == 0 else 0)
         elif t[0] in ("proc", "procn", "flush") and prev is not None:
             od = s.od
-            switched = (s.sn != prev.sn)
+            # was a stage switch taken inside this call?  A switch sets fade_len = FADE (it then falls by 2 per output frame and
+            # blocks further switches until 0), so: no switch <=> same stage and fade_len fell by exactly 2*od (or stayed 0 in
+            # a call too short to hold a whole fade).  A call of >= FADE/2 frames that starts and ends without a fade in the
+            # same stage may hide an up- and a down-switch: undecidable from outside, treated as switched (oracle skipped).
+            if s.sn != prev.sn:
+                switched = True
+            elif s.fade != 0:
+                switched = not (prev.fade != 0 and prev.fade - s.fade == 2 * od)
+            else:
+                switched = 2 * od >= prev.fade + FADE
             # slew progression between two call boundaries of one slew (no snap, no stage switch in between)
-            if prev.slew != 0 and not switched and (s.slew != 0 or s.newr != 0) and not (req and req["f13"]):
+            if prev.slew != 0 and not switched and (s.slew != 0 or s.newr != 0):
                 k = prev.slew - s.slew
                 if k != od or s.ss != prev.ss or s.step - prev.step != k * prev.ss:
                     out.append((n, "progression", "during a slew: %d frames delivered, slew_len fell by %d, step moved by %d "
                                 "(step_step %d -> %d)" % (od, k, s.step - prev.step, prev.ss, s.ss), False))
-            if switched and prev.ss * s.ss < 0:
-                out.append((n, "sign", "step_step changed sign at a stage switch: %d -> %d" % (prev.ss, s.ss), False))
+            if prev.ss * s.ss < 0:
+                out.append((n, "sign", "step_step changed sign without a new request: %d -> %d" % (prev.ss, s.ss), False))
             if req is not None:
                 req["out"] += od
                 if req["out"] > req["L"]:
@@ -95,27 +111,66 @@ def integer_oracles(mx, ops, groups):
     return out, first_dropped
 
 
-def one_trajectory(exe, seed, nops, allow_f13):
+ASSERT_F35 = "Assertion `odone == odone2' failed"
+
+
+def deep_backwards(mres, margin=8):
+    """index of the first op after which the model's state has a negative step or a clock more than `margin` samples
+    before its stage's read pointer (there the real engine would read outside the FIFO head-room), or None"""
+    for n, res in enumerate(mres):
+        for l in res:
+            if V.has_state(l):
+                s = V.State(l)
+                if s.cur[1] < 0 or s.cur[0] < -(margin << 32) or (s.fade != 0 and (s.fo[1] < 0 or s.fo[0] < -(margin << 32))):
+                    return n
+    return None
+
+
+def one_trajectory(exe, seed, nops, exe_rel=None):
+    """exe: the asserts-on build.  Where the model predicts that the two cross-faded streams get out of step (F35) that build
+    aborts: it is run up to that call only, then once more including it (must abort with exactly that assertion), and the
+    NDEBUG build exe_rel runs the whole trajectory (every field compared through and after the misalignment)."""
     rng = common.Rng(seed)
     mx, ops = V.gen_traj(rng, nops)
-    if allow_f13:
-        mo, mres = V.model_groups(mx, ops)
-        info = V.scan_model(ops, mres)
-    else:
-        ops, mo, mres, info = V.make_clean(mx, ops, rng)
+    all_ops = ops
+    mo, mres = V.model_groups(mx, ops)
+    info = V.scan_model(ops, mres)
     cut = None
-    if info["wild"] is not None:
-        # a stream running backwards reads before its FIFO (memory-unsafe on the real code): stop before that call
-        cut = info["wild"]
+    stops = [x for x in (info["mis"], info["wild"]) if x is not None]
+    if stops:
+        cut = min(stops)
         ops, mo, mres = ops[:cut], mo[:cut], mres[:cut]
     rc, lines, err = V.run_harness(exe, ops)
     real_ops, real_res, _ = V.split_real(lines)
-    res = dict(seed=seed, mx=mx, ops=ops, info=info, cut=cut, calls=len(real_res), crash=None, diff=None, oracle=[], dropped=0)
+    res = dict(seed=seed, mx=mx, ops=ops, info=info, cut=cut, calls=len(real_res), crash=None, diff=None, oracle=[], dropped=0,
+               f35=None, f35_missing=None, rel_diff=None)
     if rc:
         res["crash"] = "harness exit %d: %s" % (rc, err[-400:])
     d = V.compare(ops, mo, mres, real_ops, real_res)
     if d:
         res["diff"] = d
+    if info["mis"] is not None and info["mis"] == cut and not d and not rc:
+        # the call in which the model counts a mismatch: the assertion of the real code must fail there, and nowhere before
+        ops1 = all_ops[:cut + 1]
+        rc1, lines1, err1 = V.run_harness(exe, ops1)
+        n_ans = len(V.split_real(lines1)[1])
+        if rc1 and ASSERT_F35 in err1 and n_ans == len(real_res):
+            res["f35"] = "op %d (%s): %s" % (cut, all_ops[cut], [l for l in err1.splitlines() if "Assertion" in l][-1][-120:])
+        else:
+            res["f35_missing"] = "the model counts a chunk with odone != odone2 in op %d (%s) but the asserts-on build %s" % (
+                cut, all_ops[cut], "ran through it" if not rc1 else "failed differently: " + err1[-300:])
+        if exe_rel:
+            mo2, mres2 = V.model_groups(mx, all_ops)
+            stop = deep_backwards(mres2)
+            ops2 = all_ops if stop is None else all_ops[:stop]
+            mo2, mres2 = mo2[:len(ops2)], mres2[:len(ops2)]
+            rc2, lines2, err2 = V.run_harness(exe_rel, ops2)
+            ro2, rr2, _ = V.split_real(lines2)
+            d2 = V.compare(ops2, mo2, mres2, ro2, rr2)
+            res["calls"] += len(rr2)
+            if rc2 or d2:
+                res["rel_diff"] = (d2[0] if d2 else 0, ("NDEBUG build, through the fade misalignment: " + ("exit %d %s " % (rc2, err2[-200:]) if rc2 else "") +
+                                                       (d2[1] if d2 else "")), ops2)
     # group the real answers per op for the oracles
     groups, i = [], 0
     for g in mo:
@@ -133,8 +188,9 @@ def corr_fails(exe, ops):
     mx = float(ops[0].split()[1])
     mo, mres = V.model_groups(mx, ops)
     info = V.scan_model(ops, mres)
-    if info["wild"] is not None:
-        ops, mo, mres = ops[:info["wild"]], mo[:info["wild"]], mres[:info["wild"]]
+    stops = [x for x in (info["mis"], info["wild"]) if x is not None]
+    if stops:
+        ops, mo, mres = ops[:min(stops)], mo[:min(stops)], mres[:min(stops)]
     rc, lines, _ = V.run_harness(exe, ops)
     real_ops, real_res, _ = V.split_real(lines)
     return bool(rc) or V.compare(ops, mo, mres, real_ops, real_res) is not None
@@ -155,30 +211,39 @@ def oracle_fails(exe, ops, kind):
     return any(k == kind and not f13 for _, k, _, f13 in o)
 
 
-def correspondence(ctx, exe, n_traj, nops, fails):
+def correspondence(ctx, exe, exe_rel, n_traj, nops, fails):
+    """Returns (F13-class oracle hits, F35 reproductions)."""
     seeds = [ctx.rng.next() for _ in range(n_traj)]
-    allow = [ctx.rng.chance(.35) for _ in range(n_traj)]
     with ThreadPoolExecutor(common.NCPU) as ex:
-        results = list(ex.map(lambda a: one_trajectory(exe, a[0], nops, a[1]), zip(seeds, allow)))
-    calls = fields = 0
-    f13_hits = []
+        results = list(ex.map(lambda sd: one_trajectory(exe, sd, nops, exe_rel), seeds))
+    calls = 0
+    f13_hits, f35_hits = [], []
     for r in results:
         calls += r["calls"]
         ctx.hist("traj_max_ratio", "<1" if r["mx"] < 1 else "<4" if r["mx"] < 4 else "<16" if r["mx"] < 16 else "<=64")
         ctx.hist("traj_stage_switches", min(r["info"]["nsw"], 8))
-        ctx.hist("traj_class", ("f13-trigger" if r["info"]["f13"] is not None else "clean") +
-                 ("+cut-before-backwards-read" if r["cut"] is not None else ""))
+        ctx.hist("traj_class", ("immediate-request-during-slew" if r["info"]["f13"] is not None else "no-immediate-request-during-slew") +
+                 ("+cut-at-fade-misalignment" if r["cut"] is not None else ""))
+        ctx.count("immediate_requests_during_unfinished_slew", r["info"]["n_f13"])
         if r["info"]["sw_in_slew"]:
             ctx.count("traj_with_switch_during_slew")
         if r["info"]["shl"] is not None:
             ctx.count("traj_with_negative_left_shift")
+        if r["info"]["mis"] is not None:
+            ctx.count("traj_with_fade_misalignment_predicted")
         ctx.count("first_request_with_slew_dropped", r["dropped"])
-        if r["info"]["wild"] is not None and r["info"]["f13"] is None:
-            fails.append(dict(kind="backwards", what="the model's read position runs backwards without any immediate request "
-                              "during a slew (only F13 is known to cause that)", ops=r["ops"], seed=r["seed"]))
+        if r["info"]["wild"] is not None and (r["info"]["mis"] is None or r["info"]["wild"] < r["info"]["mis"]):
+            fails.append(dict(kind="backwards", what="the model's read position runs backwards before any fade misalignment (only F35 "
+                              "is known to cause that)", ops=r["ops"], seed=r["seed"]))
         if r["crash"] or r["diff"]:
             fails.append(dict(kind="correspondence", what=(r["crash"] or "") + (" | " if r["crash"] and r["diff"] else "") +
                               (r["diff"][1] if r["diff"] else ""), ops=r["ops"], seed=r["seed"]))
+        if r["f35"]:
+            f35_hits.append("random trajectory (seed %d) %s" % (r["seed"], r["f35"]))
+        if r["f35_missing"]:
+            fails.append(dict(kind="correspondence", what=r["f35_missing"], ops=r["ops"], seed=r["seed"]))
+        if r["rel_diff"]:
+            fails.append(dict(kind="correspondence-ndebug", what=r["rel_diff"][1], ops=r["rel_diff"][2], seed=r["seed"]))
         for n, kind, text, f13 in r["oracle"]:
             if f13:
                 f13_hits.append((r["seed"], n, text))
@@ -192,7 +257,7 @@ def correspondence(ctx, exe, n_traj, nops, fails):
     for r in results[:3]:
         ctx.sample(dict(stage="correspondence", max_ratio=r["mx"], ops=len(r["ops"]), calls=r["calls"],
                         stage_switches=r["info"]["nsw"], first_ops=r["ops"][:6]))
-    return f13_hits
+    return f13_hits, f35_hits
 
 
 # ====================================================================== numeric falsifier (real code only)
@@ -521,14 +586,14 @@ def api_stage(ctx, exe, fails):
     ctx.count("evaluations", n)
 
 
-# ---------------------------------------------------------------------- F13 witnesses (the Lean ones, on the real code)
+# ---------------------------------------------------------------------- the Lean witnesses on the real code
 
 def rep(op, n):
     return [op] * n
 
 
 WITNESSES = {
-    # Properties/C16.lean witnessA / witnessB, and the original e20.c
+    # Properties/C16.lean Historical.opsA / opsB, and the original e20.c: (ops, last requested ratio, target of the slew it interrupts)
     "witnessA": (["create 8", "ratio 4 0"] + rep("proc 400 50", 10) + ["ratio 1 500", "proc 400 50", "ratio 3.8999999999999999 0"] +
                  rep("proc 400 50", 14), 3.9, 1.0),
     "witnessB": (["create 8", "ratio 4 0"] + rep("proc 400 50", 10) + ["ratio 2 100", "proc 400 50", "proc 400 50", "ratio 3 0"] +
@@ -536,10 +601,14 @@ WITNESSES = {
     "e20": (["create 8", "ratio 4 0"] + rep("proc 400 50", 41) + ["ratio 1 5000"] + rep("proc 400 50", 2) + ["ratio 3.8999999999999999 0"] +
             rep("proc 400 50", 120), 3.9, 1.0),
 }
+# Properties/C16.lean opsF35 (`proc il ol` takes min(ceil(ol * 8), il) frames: 800, 800, 2500)
+WITNESS_F35 = ["create 8", "ratio 0.25 0", "proc 3000 100", "ratio 6 0", "proc 1200 100", "ratio 1 800", "proc 2500 1400"]
 
 
-def witness_stage(ctx, exe, fails):
-    """Replays the F13 witnesses on the real code.  Returns the list of reproduced witnesses."""
+def witness_stage(ctx, exe, fails, known):
+    """Replays the call sequences of the F13 witnesses on the real code: since the repair they must end at the last
+    requested ratio, as the model says (Historical.witnesses_repaired).  Returns the list of F13 reproductions (a stale
+    target: the repair was reverted)."""
     hit = []
     for name, (ops, want, stale) in WITNESSES.items():
         rc, lines, err = V.run_harness(exe, ops)
@@ -547,19 +616,60 @@ def witness_stage(ctx, exe, fails):
         mo, mres = V.model_groups(8.0, ops)
         d = V.compare(ops, mo, mres, real_ops, real_res)
         ctx.count("evaluations")
+        states = [l for l in real_res if V.has_state(l)]
+        s = V.State(states[-1]) if states and not rc else None
+        if s is not None and s.slew == 0 and s.newr == 0 and s.step == V.step_of(stale, s.mult) and s.step != V.step_of(want, s.mult):
+            hit.append("%s: last request soxr_set_io_ratio(%g, 0) during an unfinished slew to %g; afterwards step = %d = ratio %g "
+                       "(nothing outstanding)" % (name, want, stale, s.step, s.rate))
+            if "F13" in known:
+                continue                   # an active known finding: the model mismatch is the same finding
         if rc or d:
             fails.append(dict(kind="correspondence", what="witness %s: %s %s" % (name, err[-200:], d[1] if d else ""), ops=ops))
             continue
-        s = V.State([l for l in real_res if V.has_state(l)][-1])
-        if s.slew == 0 and s.newr == 0 and s.step == V.step_of(stale, s.mult) and s.step != V.step_of(want, s.mult):
-            hit.append("%s: last request soxr_set_io_ratio(%g, 0) during an unfinished slew to %g; afterwards step = %d = ratio %g "
-                       "(nothing outstanding)" % (name, want, stale, s.step, s.rate))
-        elif s.step == V.step_of(want, s.mult):
-            ctx.notes.append("F13 witness %s not reproduced: the engine ends at the last requested ratio" % name)
-        else:
+        if s.step == V.step_of(want, s.mult):
+            ctx.count("f13_witnesses_end_at_requested_ratio")
+            if "F13" in known:
+                ctx.notes.append("F13 witness %s not reproduced: the engine ends at the last requested ratio" % name)
+        elif not hit:
             fails.append(dict(kind="oracle:target", what="witness %s ends at step %d, neither the requested ratio %g nor the stale "
                               "target %g" % (name, s.step, want, stale), ops=ops))
     return hit
+
+
+def witness_f35_stage(ctx, exe_dbg, exe_rel, fails, known):
+    """The Lean witness of fade_alignment_fails on the real code: the model counts one chunk with odone != odone2 in the
+    last call; the asserts-on build must abort there on exactly that assertion, and the NDEBUG build must agree with the
+    model on every field through that call (fade-out clock negative afterwards).  Returns reproductions."""
+    ops = WITNESS_F35
+    mo, mres = V.model_groups(8.0, ops)
+    info = V.scan_model(ops, mres)
+    ctx.count("evaluations", 2)
+    last = V.State(mres[-1][-1]) if mres and mres[-1] else None
+    if info["mis"] != len(ops) - 1 or last is None or last.mis != 1 or last.fo[0] >= 0:
+        fails.append(dict(kind="correspondence", what="the compiled model does not reproduce Properties/C16.lean fade_alignment_fails on "
+                          "opsF35 (nmis = 1 in the last call, fade-out clock negative): driver and theorem file out of step", ops=ops))
+        return []
+    rc, lines, err = V.run_harness(exe_rel, ops)
+    ro, rr, _ = V.split_real(lines)
+    d = V.compare(ops, mo, mres, ro, rr)
+    if rc or d:
+        fails.append(dict(kind="correspondence", what="F35 witness, NDEBUG build: %s %s" % (err[-200:], d[1] if d else ""), ops=ops))
+    rc1, lines1, err1 = V.run_harness(exe_dbg, ops)
+    n_ans = len(V.split_real(lines1)[1])
+    n_before = sum(len(g) for g in mo[:-1])
+    if rc1 and ASSERT_F35 in err1 and n_ans == n_before:
+        return ["witness opsF35 (0.25 -> 6 at once -> slew to 1 over 800 frames, then one call of 1400 frames: up-switch, fade, "
+                "down-switch in one vr_process): %s; NDEBUG build: streams one sample apart, fadeout.at = %d" % (
+                    [l for l in err1.splitlines() if "Assertion" in l][-1].split(": ", 1)[-1][-100:], last.fo[0])]
+    if rc1:
+        fails.append(dict(kind="correspondence", what="F35 witness, asserts-on build: expected the assertion odone == odone2 in the last "
+                          "call, got exit %d after %d answers: %s" % (rc1, n_ans, err1[-300:]), ops=ops))
+    else:
+        msg = "F35 witness: the model counts a chunk with odone != odone2 but the asserts-on build runs through (repaired? then the model must follow)"
+        if "F35" in known:
+            ctx.notes.append(msg)
+        fails.append(dict(kind="correspondence", what=msg, ops=ops))
+    return []
 
 
 # ---------------------------------------------------------------------- F12: request-size schedules
@@ -618,53 +728,59 @@ def schedule_stage(ctx, exe, tmp, n, fails):
     return hits
 
 
-# ---------------------------------------------------------------------- F14: sanitizer build
+# ---------------------------------------------------------------------- sanitizer build (F14 stays repaired)
 
+# gcc does not instrument `negative << n` under the repository's -std=gnu89 (C90 leaves it defined); C99 rules do.
+common.VARIANTS.setdefault("san99", common.VARIANTS["san"] + " -std=gnu99")
+SAN = "san99"
 SAN_ENV = dict(os.environ, ASAN_OPTIONS="detect_leaks=0:abort_on_error=0", UBSAN_OPTIONS="print_stacktrace=0")
 
 
-def san_stage(ctx, exe_san, fails):
-    """Trajectories in the ASan/UBSan build.  The model says where a stage switch shifts a negative value left (ghost
-    `gshl`): there and only there UBSan may fire (F14).  Returns reproductions."""
+def san_stage(ctx, exe_san, fails, known):
+    """Trajectories in the ASan/UBSan build (C99 shift rules, asserts on).  The model says where a stage switch shifts a
+    negative value left (ghost `gshl`: downward slews across an octave): the pinned tree did that on the signed value
+    (F14, UBSan `left shift of negative value`); the repaired code shifts the unsigned representation, so every run must
+    be clean.  Returns F14 reproductions (the repair was reverted)."""
     hits = []
     cases = []
-    # downward slews across every octave boundary of an 8x engine, and upward ones (must be clean)
+    # downward slews across every octave boundary of an 8x engine, and upward ones
     for hi, lo in [(6.0, 3.0), (3.0, 1.5), (1.5, .7), (7.9, .3)]:
         cases.append(["create 8", "ratio %g 0" % hi] + rep("proc 2000 200", 6) + ["ratio %g 1500" % lo] + rep("proc 2000 200", 14))
         cases.append(["create 8", "ratio %g 0" % lo] + rep("proc 2000 200", 6) + ["ratio %g 1500" % hi] + rep("proc 2000 200", 14))
-    for c in range(4 if ctx.quick else 24):
+    for c in range(6 if ctx.quick else 40):
         rng = common.Rng(ctx.rng.next())
         mx, ops = V.gen_traj(rng, 120, small=True)
-        ops, _, _, _ = V.make_clean(mx, ops, rng)
         cases.append(ops)
 
     def one(ops):
         mx = float(ops[0].split()[1])
         mo, mres = V.model_groups(mx, ops)
         info = V.scan_model(ops, mres)
-        if info["wild"] is not None:
-            ops2 = ops[:info["wild"]]
-        else:
-            ops2 = ops
+        stops = [x for x in (info["mis"], info["wild"]) if x is not None]     # asserts are on: stop before an F35 abort
+        ops2 = ops[:min(stops)] if stops else ops
         rc, lines, err = V.run_harness(exe_san, ops2, env=SAN_ENV)
-        n_done = len([l for l in lines if l.startswith("< R") or l.startswith("< S") or l.startswith("< C")])
         return ops2, info, rc, err, lines
     with ThreadPoolExecutor(common.NCPU) as ex:
         res = list(ex.map(one, cases))
     for ops, info, rc, err, lines in res:
         ctx.count("evaluations")
-        ctx.hist("sanitizer_runs", "model predicts negative left shift" if info["shl"] is not None else "model predicts none")
+        ctx.hist("sanitizer_runs", "with a left shift of a negative value (model)" if info["shl"] is not None else "without")
         is_shift = "left shift of negative value" in err and "vr32.c" in err
         if rc == 0:
             if info["shl"] is not None:
-                ctx.notes.append("the model predicts a left shift of a negative value but UBSan is silent (F14 repaired?)")
+                ctx.count("negative_left_shifts_clean_under_ubsan")
+                if "F14" in known:
+                    ctx.notes.append("the model predicts a left shift of a negative value but UBSan is silent (F14 repaired?)")
             continue
         if is_shift and info["shl"] is not None:
             m = [l for l in err.splitlines() if "runtime error" in l][:1]
             hits.append("downward slew across an octave: %s" % (m[0].strip() if m else "left shift of negative value in vr32.c"))
+            if "F14" not in known:
+                fails.append(dict(kind="sanitizer", what="UBSan: %s -- the stage switch shifts a negative value left again (F14 is recorded "
+                                  "as fixed)" % (m[0].strip() if m else "left shift of negative value in vr32.c"), ops=ops))
         else:
-            fails.append(dict(kind="sanitizer", what="ASan/UBSan report that is not the known negative left shift of a stage switch "
-                              "(model predicts shift: %s): %s" % (info["shl"] is not None, err[-500:]), ops=ops))
+            fails.append(dict(kind="sanitizer", what="ASan/UBSan report (model predicts a negative left shift: %s): %s" % (
+                info["shl"] is not None, err[-500:]), ops=ops))
     ctx.count("sanitizer_runs_total", len(res))
     return hits
 
@@ -747,48 +863,54 @@ def run(ctx):
         broken.append("the model driver soxr_vr was not built")
     exe_dbg = common.build_harness("vr_trace", ["vr/trace.c"], variant="dbg")     # asserts on: assert(odone == odone2) etc.
     exe_rel = common.build_harness("vr_trace", ["vr/trace.c"], variant="rel")     # as shipped: the numeric falsifier
-    exe_san = common.build_harness("vr_trace", ["vr/trace.c"], variant="san")
+    exe_san = common.build_harness("vr_trace", ["vr/trace.c"], variant=SAN)
     known = known_ids()
     fails = []
-    f13_hits, f12_hits, f14_hits = [], [], []
+    f13_hits, f12_hits, f14_hits, f35_hits = [], [], [], []
     model_ok = os.path.exists(V.MODEL)
 
     if model_ok:
         corpus_stage(ctx, exe_dbg, fails)
         # ---- correspondence + integer oracles
         n_traj, nops = (140, 260) if ctx.quick else (2500, 420)
-        f13_corr = correspondence(ctx, exe_dbg, n_traj, nops, fails)
+        f13_corr, f35_corr = correspondence(ctx, exe_dbg, exe_rel, n_traj, nops, fails)
         ctx.count("f13_oracle_hits_in_random_trajectories", len(f13_corr))
-        # ---- the Lean witnesses of F13 on the real code
-        f13_hits = witness_stage(ctx, exe_rel, fails)
+        ctx.count("f35_assertion_aborts_in_random_trajectories", len(f35_corr))
+        # ---- the Lean witnesses on the real code
+        f13_hits = witness_stage(ctx, exe_rel, fails, known)
         if f13_corr and not f13_hits:
             f13_hits = ["random trajectory (seed %d, op %d): %s" % f13_corr[0]]
+        f35_hits = witness_f35_stage(ctx, exe_dbg, exe_rel, fails, known) + f35_corr
         api_stage(ctx, exe_rel, fails)
     with tempfile.TemporaryDirectory(prefix="vr-c16-") as tmp:
         numeric_constant(ctx, exe_rel, tmp, 22 if ctx.quick else 400, fails)
         numeric_tours(ctx, exe_rel, tmp, 10 if ctx.quick else 300, fails)
         f12_hits = schedule_stage(ctx, exe_rel, tmp, 12 if ctx.quick else 200, fails)
     if model_ok:
-        f14_hits = san_stage(ctx, exe_san, fails)
+        f14_hits = san_stage(ctx, exe_san, fails, known)
 
     # ---- known findings: a hit counts as known only with its specific signature and an active entry
     for fid, hits, text in (("F13", f13_hits, "soxr_set_io_ratio(r, 0) during an unfinished slew (or before its snap) does not cancel it: "),
                             ("F12", f12_hits, "VR output depends on the request sizes when a stage switch is taken: "),
-                            ("F14", f14_hits, "UBSan: left shift of a negative value at a stage switch (vr32.c lshift): ")):
+                            ("F14", f14_hits, "UBSan: left shift of a negative value at a stage switch (vr32.c lshift): "),
+                            ("F35", f35_hits, "the two cross-faded streams get out of step where the model counts it (vr32.c assert(odone == odone2)): ")):
         if not hits:
             continue
         ctx.cov.setdefault("known_reproductions", {})[fid] = len(hits)
         if fid in known:
             ctx.known(fid, text + hits[0])
-        else:
-            fails.append(dict(kind="finding:" + fid, what=text + hits[0] + "  (no active entry in known_findings.d/vr.json)", ops=[]))
+        elif fid != "F14":                 # a reverted F14 is already reported by san_stage with its failing input
+            fails.append(dict(kind="finding:" + fid, what=text + hits[0] + "  (no active entry in known_findings.d/vr.json: recorded as "
+                              "fixed, or never listed)", ops=WITNESSES["witnessA"][0] if fid == "F13" else WITNESS_F35 if fid == "F35" else []))
 
     ctx.cov["rule"] = ("every state field of rate_t after every call equals the Lean model's (integers; doubles as bit patterns); on the "
                        "real state: step == (int64)(r*step_mult+.5) at once for slew_len 0 and once more than slew_len frames have "
                        "been delivered, step linear in the frames delivered during a slew, 2|L*step_step-(target-step)| <= L; "
                        "sine-fit residual <= -80 dB and |count - N/ratio| <= 2 at constant ratios; ramp read-back slope == ratio, "
                        "monotone during slews, second differences bounded; constant-rate engines return the error string and their "
-                       "output is unchanged; two request-size schedules bit-identical unless a stage switch is taken (F12)")
+                       "output is unchanged; two request-size schedules bit-identical unless a stage switch is taken (F12); the asserts-on "
+                       "build aborts on odone == odone2 exactly in the calls where the model counts a misaligned chunk (F35) and the "
+                       "NDEBUG build equals the model through them; ASan/UBSan (C99 shift rules) clean")
     ctx.assume(
         "the three floating-point expressions of vr32.c that feed integers are evaluated by the driver in IEEE binary64 (Lean Float, "
         "the platform's log()); in the theorems they are parameters (Num); at every ratio the driver also checks them against the exact "
@@ -798,8 +920,11 @@ def run(ctx):
         "ratio trajectories stay in [2^-6, max]; slew_len < 2^31; the first ratio is set with slew_len 0 as examples/5-variable-rate.c "
         "prescribes (a first request with slew_len > 0 is dropped by vr_set_io_ratio and the engine starts at the declared maximum: "
         "counted as first_request_with_slew_dropped, modelled as written)",
-        "trajectories in which an immediate request arrives during an unfinished slew (F13) are compared only up to the call in which "
-        "a stream starts to run backwards: from there the real engine reads before its FIFOs (heap-buffer-overflow under ASan)",
+        "trajectories in which the model predicts a fade misalignment (F35) are run in the asserts-on build only up to that call (which "
+        "must abort on the assertion); the NDEBUG build is compared through it, up to the point where a clock would be more than 8 "
+        "samples before its read pointer (never seen)",
         "frame-count theorem is about the interpolator clock; the count of the whole engine (FIFO alignment, flush) is Goal_frames_full_engine, "
-        "measured by the falsifier")
+        "measured by the falsifier",
+        "request_settles / slew_progression carry nsw = 0 (no stage switch: across a switch step is rescaled, stage_switch_*_continuous) "
+        "and nmis = 0 (cross-faded streams in step: false in general, F35)")
     report(ctx, exe_dbg, fails, broken)
